@@ -439,7 +439,7 @@ pub fn run() {
         c.harness_error("qasm_lite self-test failed");
         return;
     }
-    let (nq, depth, n) = t.pick((4usize, 30usize, 400usize), (5usize, 60usize, 20_000usize));
+    let (nq, depth, n) = t.pick((4usize, 30usize, 2000usize), (5usize, 60usize, 30_000usize));
     par_cases("clifford-t", n, move |r, i| {
         let mut p = CircParams::unitary(nq, depth, PhPool::Exact);
         p.ccz = false;
@@ -487,7 +487,7 @@ pub fn run() {
     };
     let dir = format!("/verif/harness/target/tmp/c03-{}", std::process::id());
     let _ = std::fs::create_dir_all(&dir);
-    let ncli = t.pick(40usize, 2000usize);
+    let ncli = t.pick(100usize, 3000usize);
     {
         let dir = dir.clone();
         par_cases("cli-opt", ncli, move |r, i| {
